@@ -6,7 +6,7 @@
    runs out of fuel is the outcome [Diverge]. *)
 From Coq Require Import NArith ZArith List Bool.
 From Chess3 Require Import Base.Bits Base.Word Model.Types Model.BoardDef Model.Board Model.Fen Gen.Zobrist
-  Spec.FenSpec Proofs.FenSafe Proofs.FenGate Proofs.FenRound Proofs.FenUci Proofs.FenWf.
+  Spec.FenSpec Proofs.FenSafe Proofs.FenGate Proofs.FenRound Proofs.FenUci Proofs.FenWf Model.ApplyMoves Model.FenSeq.
 Import ListNotations.
 
 (* ---- robustness: all byte lists, of any length ---- *)
@@ -81,6 +81,16 @@ Theorem C11_uci_total : forall (z : zobrist) (d : board) (args : list (list N)),
   exists d' code, handle_position z d args = Ok (d', code) /\ (code <> 0%N -> d' = d).
 Proof. exact handle_position_total. Qed.
 Print Assumptions C11_uci_total.
+
+(* the whole position command, move list included (Model/FenSeq.v).  The model's only state is the
+   board - as in uci.go, where handlePosition reads and writes d.board and nothing else - so the
+   statement covers every command of every command sequence: a rejected command (1 too few
+   arguments, 2 parser error, 3 piece-count gate) leaves the board it found. *)
+Theorem C11_uci_moves_keep : forall (z : zobrist) (d : board) (args : list (list N)),
+  exists d' code, handle_position_moves z d args = Ok (d', code) /\
+                  (code = 1%N \/ code = 2%N \/ code = 3%N -> d' = d).
+Proof. exact handle_position_moves_keep. Qed.
+Print Assumptions C11_uci_moves_keep.
 
 (* ---- known finding F6: the clock hypothesis of the round trip cannot be dropped ---- *)
 
